@@ -494,6 +494,9 @@ func fileLinesIter(L *LState) int {
 		file = L.Get(UpvalueIndex(2)).(*LUserData).Value.(*lFile)
 	}
 	errorIfFileIsClosed(L, file)
+	if file.reader == nil {
+		L.RaiseError("%s is opened for only writing.", file.Name())
+	}
 	buf, err, iseof := readBufioLine(file.reader)
 	if iseof {
 		L.Push(LNil)
@@ -616,6 +619,9 @@ func ioLinesIter(L *LState) int {
 		toclose = true
 	}
 	errorIfFileIsClosed(L, file)
+	if file.reader == nil {
+		L.RaiseError("%s is opened for only writing.", file.Name())
+	}
 	buf, err, iseof := readBufioLine(file.reader)
 	if iseof {
 		if toclose {
